@@ -223,3 +223,166 @@ Section SpecProofs.
     exists r. repeat split; auto.
   Qed.
 End SpecProofs.
+
+(* ------------------------------------------------------------------------------------------ *)
+(* The fork schedule lookup of Lib/Ssz.v means what get_domain needs: the version in force at an
+   epoch is that of the last fork activated at or before it, the genesis version if there is none
+   (for a schedule in ascending activation order). *)
+Fixpoint ascending (forks : list (N * N)) : Prop :=
+  match forks with
+  | [] => True
+  | (e, _) :: r => (match r with [] => True | (e', _) :: _ => e <= e' end) /\ ascending r
+  end.
+
+Lemma ascending_filter_nil forks e0 e :
+  ascending ((e0, 0) :: forks) -> e < e0 -> filter (fun f => fst f <=? e) forks = [].
+Proof.
+  revert e0; induction forks as [|[e1 v1] r IH]; intros e0 Hasc Hlt; [reflexivity|].
+  cbn [ascending] in Hasc. destruct Hasc as [Hle [Hle' Hasc']].
+  cbn [filter fst]. destruct (e1 <=? e) eqn:Hc; [apply N.leb_le in Hc; lia|].
+  apply (IH e1); [|lia]. cbn [ascending]. split; [|exact Hasc']. exact Hle'.
+Qed.
+
+Lemma last_default_irrelevant {A} (l : list A) (x d d' : A) : last (x :: l) d = last (x :: l) d'.
+Proof. revert x; induction l as [|y l IH]; intro x; [reflexivity|]. cbn [last] in *. apply IH. Qed.
+
+Lemma version_from_last forks : forall v e,
+  ascending forks ->
+  version_from v forks e = last (map snd (filter (fun f => fst f <=? e) forks)) v.
+Proof.
+  induction forks as [|[e1 v1] r IH]; intros v e Hasc; [reflexivity|].
+  cbn [version_from filter fst]. destruct (e1 <=? e) eqn:Hc.
+  - cbn [ascending] in Hasc. destruct Hasc as [_ Hasc'].
+    rewrite (IH v1 e Hasc'). cbn [map snd].
+    destruct (map snd (filter (fun f => fst f <=? e) r)) as [|x l] eqn:Hm; [reflexivity|].
+    cbn [last]. apply last_default_irrelevant.
+  - apply N.leb_gt in Hc.
+    rewrite (ascending_filter_nil r e1 e); [reflexivity| |exact Hc].
+    cbn [ascending] in Hasc |- *. exact Hasc.
+Qed.
+
+(* ------------------------------------------------------------------------------------------ *)
+(* The triple (domain type, epoch, object root) for ANY service configuration and ANY domain
+   provider: which domain the service asks for, for which epoch, and which object root it signs,
+   duty by duty -- independent of the values of the chain spec's constants. *)
+Definition obind {A B} (o : option A) (f : A -> option B) : option B := match o with Some x => f x | None => None end.
+
+Definition duty_domain (P : provider) (Sv : service) (m : message) : option N :=
+  let spe := s_spe Sv in
+  match m with
+  | MAttestation d => p_domain P (s_attester Sv) (ad_slot d / spe)
+  | MBlock h => p_domain P (s_proposer Sv) (bh_slot h / spe)
+  | MRandao slot => p_domain P (s_randao Sv) (slot / spe)
+  | MSlotSelection slot => p_domain P (s_selection Sv) (slot / spe)
+  | MSyncSelection slot _ => obind (s_sync_selection Sv) (fun dt => p_domain P dt (slot / spe))
+  | MAggregateAndProof slot _ => p_domain P (s_aggregate Sv) (slot / spe)
+  | MSyncMessage epoch _ => obind (s_sync Sv) (fun dt => p_domain P dt epoch)
+  | MContribution cp => obind (s_contribution Sv) (fun dt => p_domain P dt (co_slot (cp_contribution cp) / spe))
+  | MRegistration _ => obind (s_builder Sv) (p_genesis P)
+  end.
+
+Definition duty_object_root (H : N -> N -> N) (spe : N) (m : message) : N :=
+  match m with
+  | MAttestation d => htr_att_data H d
+  | MBlock h => htr_block_header H h
+  | MRandao slot => u64_chunk (slot / spe)
+  | MSlotSelection slot => u64_chunk slot
+  | MSyncSelection slot sub => htr_sync_selection_data H slot sub
+  | MAggregateAndProof _ root => root
+  | MSyncMessage _ root => root
+  | MContribution cp => htr_contribution_and_proof H cp
+  | MRegistration r => htr_registration H r
+  end.
+
+Lemma nth_error_map_inv {A B} (f : A -> B) (l : list A) i y :
+  nth_error (map f l) i = Some y -> exists x, nth_error l i = Some x /\ y = f x.
+Proof.
+  rewrite nth_error_map. destruct (nth_error l i) as [x|]; [|discriminate].
+  intro Hy; injection Hy as <-. exists x; auto.
+Qed.
+
+Section General.
+  Variable H : N -> N -> N.
+  Variable sig : Type.
+  Variable zero_sig : sig.
+  Variable sign : N -> N -> sig.
+  Variable P : provider.
+  Variable Sv : service.
+
+  Local Notation E := (honest H sig sign).
+  Local Notation exp := (expected sig zero_sig sign).
+  Local Notation csr := (compute_signing_root H).
+
+  Definition duty_sig_ok (s : sig) (a : account) (m : message) : Prop :=
+    exists domain, duty_domain P Sv m = Some domain /\
+                   s = exp a (csr (duty_object_root H (s_spe Sv) m) domain).
+
+  Lemma single_item (s : sig) a m i a' m' :
+    duty_sig_ok s a m ->
+    nth_error [(a, m)] i = Some (a', m') ->
+    exists s', nth_error [s] i = Some s' /\ duty_sig_ok s' a' m'.
+  Proof.
+    intros Hok Hi. destruct i as [|i]; [|destruct i; discriminate].
+    cbn in Hi. injection Hi as <- <-. exists s. split; [reflexivity | exact Hok].
+  Qed.
+
+  Lemma exp_not_failing a r : a_fail a = false -> sign (a_key a) r = exp a r.
+  Proof. intro Hf. unfold expected. rewrite Hf. reflexivity. Qed.
+
+  Theorem run_general q sigs :
+    run H sig zero_sig P E Sv q = Ok sigs ->
+    length sigs = length (request_items q) /\
+    forall i a m, nth_error (request_items q) i = Some (a, m) ->
+      exists s, nth_error sigs i = Some s /\ duty_sig_ok s a m.
+  Proof.
+    intro Hrun. destruct q as [a d|accs slot idxs bbr se sr te tr|a h|a slot|accs slot|accs slot subs|a slot root|accs ep root|accs cps|a reg];
+      cbn [run] in Hrun; cbn [request_items].
+    - unfold one in Hrun. destruct (sign_attestation _ _ _ _ _ _ _) as [s| |] eqn:Hs; try discriminate.
+      injection Hrun as <-. apply sign_attestation_ok in Hs as (domain & Hd & -> & Hf).
+      split; [reflexivity|]. intros i a' m' Hi. eapply single_item; [|exact Hi].
+      exists domain. cbn [duty_object_root duty_domain]. unfold epoch_of in *. split; [exact Hd|]. rewrite <- exp_not_failing by exact Hf. reflexivity.
+    - apply sign_attestations_ok in Hrun as (domain & Hd & _ & _ & ->).
+      split; [rewrite !map_length; reflexivity|].
+      intros i a m Hi. apply nth_error_map_inv in Hi as ([a' idx] & Hi & Heq). injection Heq as -> ->.
+      eexists. split; [rewrite nth_error_map, Hi; reflexivity|].
+      exists domain. cbn [duty_object_root duty_domain fst snd]. unfold epoch_of in *. split; [exact Hd|]. reflexivity.
+    - unfold one in Hrun. destruct (sign_proposal _ _ _ _ _ _ _) as [s| |] eqn:Hs; try discriminate.
+      injection Hrun as <-. apply sign_proposal_ok in Hs as (domain & Hd & -> & Hf).
+      split; [reflexivity|]. intros i a' m' Hi. eapply single_item; [|exact Hi].
+      exists domain. cbn [duty_object_root duty_domain]. unfold epoch_of in *. split; [exact Hd|]. rewrite <- exp_not_failing by exact Hf. reflexivity.
+    - unfold one in Hrun. destruct (sign_randao _ _ _ _ _ _ _) as [s| |] eqn:Hs; try discriminate.
+      injection Hrun as <-. apply sign_randao_ok in Hs as (domain & Hd & -> & Hf).
+      split; [reflexivity|]. intros i a' m' Hi. eapply single_item; [|exact Hi].
+      exists domain. cbn [duty_object_root duty_domain]. unfold epoch_of in *. split; [exact Hd|]. rewrite <- exp_not_failing by exact Hf. reflexivity.
+    - apply sign_slot_selections_ok in Hrun as (domain & Hd & ->).
+      split; [rewrite !map_length; reflexivity|].
+      intros i a m Hi. apply nth_error_map_inv in Hi as (a' & Hi & Heq). injection Heq as -> ->.
+      eexists. split; [rewrite nth_error_map, Hi; reflexivity|].
+      exists domain. cbn [duty_object_root duty_domain fst snd]. unfold epoch_of in *. split; [exact Hd|]. reflexivity.
+    - apply sign_sync_selections_ok in Hrun as (dt & domain & Hdt & Hd & _ & ->).
+      split; [rewrite !map_length; reflexivity|].
+      intros i a m Hi. apply nth_error_map_inv in Hi as ([a' sub] & Hi & Heq). injection Heq as -> ->.
+      eexists. split; [rewrite nth_error_map, Hi; reflexivity|].
+      exists domain. cbn [duty_object_root duty_domain fst snd]. unfold epoch_of in *. split; [|reflexivity]. rewrite Hdt. exact Hd.
+    - unfold one in Hrun. destruct (sign_aggregate_and_proof _ _ _ _ _ _ _ _) as [s| |] eqn:Hs; try discriminate.
+      injection Hrun as <-. apply sign_aggregate_and_proof_ok in Hs as (domain & Hd & -> & Hf).
+      split; [reflexivity|]. intros i a' m' Hi. eapply single_item; [|exact Hi].
+      exists domain. cbn [duty_object_root duty_domain]. unfold epoch_of in *. split; [exact Hd|]. rewrite <- exp_not_failing by exact Hf. reflexivity.
+    - apply sign_sync_roots_ok in Hrun as (dt & domain & Hdt & Hd & ->).
+      split; [rewrite !map_length; reflexivity|].
+      intros i a m Hi. apply nth_error_map_inv in Hi as (a' & Hi & Heq). injection Heq as -> ->.
+      eexists. split; [rewrite nth_error_map, Hi; reflexivity|].
+      exists domain. cbn [duty_object_root duty_domain fst snd]. unfold epoch_of in *. split; [|reflexivity]. rewrite Hdt. exact Hd.
+    - apply sign_contributions_ok in Hrun as (dt & cp0 & domain & Hdt & Hhd & Hlen & Hall & Hd & ->).
+      split; [rewrite !map_length; reflexivity|].
+      intros i a m Hi. apply nth_error_map_inv in Hi as ([a' cp] & Hi & Heq). injection Heq as -> ->.
+      eexists. split; [rewrite nth_error_map, Hi; reflexivity|].
+      exists domain. cbn [duty_object_root duty_domain fst snd]. unfold epoch_of in *. split; [|reflexivity]. rewrite Hdt. cbn [obind].
+      apply nth_error_In in Hi. apply in_combine_r in Hi. rewrite Forall_forall in Hall.
+      specialize (Hall _ Hi). cbn beta in Hall. rewrite Hall. exact Hd.
+    - unfold one in Hrun. destruct (sign_registration _ _ _ _ _ _ _) as [s| |] eqn:Hs; try discriminate.
+      injection Hrun as <-. apply sign_registration_ok in Hs as (r & dt & domain & -> & Hdt & Hd & -> & Hf).
+      split; [reflexivity|]. intros i a' m' Hi. eapply single_item; [|exact Hi].
+      exists domain. cbn [duty_object_root duty_domain]. split; [rewrite Hdt; exact Hd|]. rewrite <- exp_not_failing by exact Hf. reflexivity.
+  Qed.
+End General.
